@@ -1,6 +1,6 @@
 SPECIFICATION Spec
 CONSTANTS
-  MaxCalls = 4
+  MaxCalls = 5
   Impl = "fixed"
 INVARIANTS TypeOK OnlyAuthorized AuthWhenRequired PermsWhenRequired PermsImplyList NoDuplicates
 VIEW View
